@@ -146,6 +146,12 @@ def judgeSet (got want : List Nat) : Option String :=
   if canon got == canon want then none
   else if subsetOf got want then some "reach-missing" else some "reach-extra"
 
+/-- a slice is one whole SCC (by BFS): its members are exactly the nodes mutually reachable with its first member -/
+def sliceOK (g : Digraph) (s : List Nat) : Bool :=
+  match s with
+  | [] => false
+  | x :: _ => canon s == canon (g.nodes.filter (fun v => mutualReach g x v))
+
 /-- the slices must be exactly the SCCs (by BFS) of the expected reach set, pairwise disjoint -/
 def judgeSlices (g : Digraph) (u : Nat) (d : Dir) (sl : Option (List (List Nat))) : Option String :=
   match sl with
@@ -156,9 +162,7 @@ def judgeSlices (g : Digraph) (u : Nat) (d : Dir) (sl : Option (List (List Nat))
     | some c => some c
     | none =>
       if sl.flatten.length != (canon sl.flatten).length then some "reachslice-malformed"
-      else if sl.all (fun s => match s with
-          | [] => false
-          | x :: _ => canon s == canon (g.nodes.filter (fun v => mutualReach g x v))) then none
+      else if sl.all (sliceOK g) then none
       else some "reachslice-malformed"
 
 /-! ### the public query interface as one step function, and the per-answer acceptance predicate -/
